@@ -279,6 +279,47 @@ def r7_ipc_lock_ownership(chk: Check):
     chk.count("interprocess_lock_constructions", n)
 
 
+def r9_foreign_holding_outlives_job(chk: Check):
+    """The watcher of a foreign holding deletes it only once the job that took it is gone: no pid file under the job lock, the process of the
+    pid file is not there any more, or it was waited for.  A holding deleted while its job runs hands the units to a second job."""
+    tree = chk.tree
+    w = tree.func("tokens", "TokenFile.watch.run")
+    g = CFG(w.node)
+    rd = ReachingDefs(g)
+    loc = chk.loc(w.module, w.node)
+    dele = [x for x, c in g.call_nodes(lambda c: src(c) == "self.delete()")]
+    chk.min_instances(len(dele), 1, "deletion of the foreign holding in the watcher")
+    absent = [b for b in g.live if b.kind == "branch" and b.extra["test"].kind == "test" and b.extra["polarity"] is False and src(b.extra["test"].ast) == "pidpath.is_file()"]
+    def rebuilds(v):
+        """the value is the process rebuilt from the pid file: Process.fromDefinition(...) itself, or a package helper that returns it"""
+        if "fromDefinition" in src(v):
+            return True
+        if isinstance(v, ast.Call):
+            for ff in tree.nontest_funcs():
+                if ff.module.name == "tokens" and not isinstance(ff.node, ast.Lambda) and ff.node.name == tail(v):
+                    rets = [x for x in body_walk(ff.node) if isinstance(x, ast.Return) and x.value is not None]
+                    if rets and all("fromDefinition" in src(x.value) for x in rets):
+                        return True
+        return False
+
+    procdef = [n for n in g.live if n.kind == "stmt" and isinstance(n.ast, ast.Assign) and src(n.ast.targets[0]) == "process" and rebuilds(n.ast.value)]
+    chk.require(bool(absent) and bool(procdef), chk.fkey(w, "job looked up"), "the watcher must decide from the pid file of the job (absent: the job is gone; present: rebuild its process)", loc)
+    waits = [x for x, c in g.call_nodes(lambda c: src(c) == "process.wait()")]
+    gone = [b for b in g.live if b.kind == "branch" and b.extra["test"].kind == "test" and src(b.extra["test"].ast) == "process is None" and b.extra["polarity"] is True]
+    for d in dele:
+        ok = bool(absent) and bool(procdef) and g.on_every_path(absent + procdef, end=d)
+        chk.require(ok, chk.fkey(w, "holding deleted only when the job is known"), "the holding can be deleted on a path that neither found the pid file absent nor rebuilt the job's process", loc)
+        for pd in procdef:
+            ok2 = bool(waits) and g.on_every_path(waits + gone, start=pd, end=d)
+            chk.require(ok2, chk.fkey(w, "holding deleted only after the job ended"),
+                        "after the job's process was rebuilt from its pid file the holding is deleted without waiting for that process: the units of a running job are handed to another one", loc)
+    # the pid file is read under the job lock (the scheduler writes it under the same lock, right after the spawn)
+    for n in absent:
+        t = n.extra["test"]
+        locked = any(isinstance(a, (ast.With, ast.AsyncWith)) and any("InterProcessLock(lockpath)" in src(i.context_expr) or "lock" in src(i.context_expr).lower() for i in a.items) for a in _anc(t.ast))
+        chk.require(locked, chk.fkey(w, "pid file read under the job lock"), "the watcher reads the pid file outside the job lock: between the spawn and the writing of the pid file the job looks finished", loc)
+
+
 def r8_holdings_paired(chk: Check):
     from . import c09
 
@@ -293,5 +334,6 @@ RULES = [
     ("R6", "one CounterToken object per name per process (create() returns the registered one whenever it exists; nobody else constructs)", r6_single_token_object),
     ("R7", "the token lock file is locked only through the token's own ipc_lock, always under the thread lock (POSIX locks are per process)", r7_ipc_lock_ownership),
     ("R8", "a holding is given back only by the lock that took it: locks enter the Locks set once held, one fresh lock object per attempt, level protocol (= C09.R1)", r8_holdings_paired),
+    ("R9", "a foreign holding is deleted by its watcher only once its job is gone: pid file absent under the job lock, or the rebuilt process vanished or was waited for", r9_foreign_holding_outlives_job),
     ("R5", "tokens are taken, and the process spawned, under the same job lock; the watcher reads the pid file under that lock", r5_tokens_under_job_lock),
 ]
